@@ -27,7 +27,7 @@ type Case struct {
 }
 
 var ruleSetNames = []string{"literal+catchall", "single+catchall", "single-with-path-params+catchall", "free+catchall", "default-rule-only",
-	"mixed-settings-on-one-expression"}
+	"mixed-settings-on-one-expression", "single+strip-prefix"}
 
 var settings = []string{"off", "on", "no_decode"}
 
@@ -78,6 +78,19 @@ func ruleSets(name, setting, base, upstream string) hx.RuleSetFor {
 				mk("single-pp", base[:strings.LastIndex(base, "/")+1]+":p", rulecfg.ParameterMatcher{Name: "p", Type: "glob", Value: last[:1] + "*"}),
 				mk("catchall", "/**"),
 			}
+		case "single+strip-prefix":
+			// like single+catchall, and the proxy cuts the literal prefix from the path it forwards
+			a, b := mk("single", "/adm/:p"), mk("single2", "/adm/:p/:q")
+
+			for _, r := range []*rulecfg.Rule{&a, &b} {
+				if r.Backend != nil {
+					bk := *r.Backend
+					bk.URLRewriter = &rulecfg.URLRewriter{PathPrefixToCut: "/adm"}
+					r.Backend = &bk
+				}
+			}
+
+			rs.Rules = []rulecfg.Rule{a, b, mk("catchall", "/**")}
 		case "free+catchall":
 			rs.Rules = []rulecfg.Rule{mk("free", "/adm/*r"), mk("catchall", "/**")}
 		case "default-rule-only":
@@ -346,9 +359,9 @@ func Check() *engine.Check {
 	return &engine.Check{
 		ID:    "C08",
 		Level: "exploration",
-		Rule: "5 rule-set shapes (literal, single wildcard, single wildcard with path_params, free wildcard — each next to a /** catch-all — and " +
+		Rule: "7 rule-set shapes (literal, single wildcard, single wildcard with path_params, free wildcard, single wildcard whose literal prefix the proxy strips - each next to a /** catch-all -, rules with different settings on one expression and " +
 			"default rule only) x 3 allow_encoded_slashes settings x 3 canonical paths x (every spelling with any subset of the designated " +
-			"unreserved octets - 6 quick / 9 thorough, always including the first and last octet of the path and of every segment - percent-encoded in upper or lower hex = 3^n per path, and %2F / %2f inserted at every position of the last segment) " +
+			"unreserved octets - 6 quick / 9 thorough, always including the first and last octet of the path and of every segment - percent-encoded in upper or lower hex = 3^n per path, and %2F / %2f inserted at every position of the last segment, also together with the first octet of the path percent-encoded) " +
 			"x decision and proxy service, sent as raw request bytes through http.ReadRequest and the real handler chains with real mechanisms; " +
 			"oracle: metamorphic equality with the canonical spelling (rule, captures, decision) and the encoded-slash table of the statement. " +
 			"Non-trivial = spelling differs from the canonical one or contains an encoded slash.",
@@ -421,6 +434,9 @@ func run(c *engine.Ctx) {
 
 						for _, p := range slashVariants(base) {
 							judge(c, apps, &Case{name, setting, base, p, "slash", svc})
+
+							// the same with the first octet of the path (part of the literal prefix) percent-encoded as well
+							judge(c, apps, &Case{name, setting, base, fmt.Sprintf("/%%%02X", p[1]) + p[2:], "slash", svc})
 						}
 					}
 				})
